@@ -72,7 +72,9 @@ func init() {
 			}
 			return l
 		}
-		names := []string{"settings", "cfg", "settings"}
+		// original names, some of which ARE what another resource is called after a prefix or suffix (an intermediate name of one
+		// resource beside the original name of another)
+		names := []string{"settings", "cfg", "settings", "a-settings", "xcfg", "settings-s", "settings"}
 		nss := []string{"", "", "default", "ns1"}
 		oldName := pickS(r, names)
 		roleMode := r.Intn(5) == 0
